@@ -56,6 +56,9 @@ BASES = {
 }
 
 
+from .. import instrument as instrument_mod
+
+
 class Model:
     def __init__(self):
         self.cap = {}
@@ -101,6 +104,7 @@ class PoolRun:
         self.real = []   # real ReservedResources, parallel to m.hold
         self.shared = {}
         self.recycled = {}
+        self.scratch = []
         self.raised_after_res = False
         self.failing_multi = False
         self.ok = True
@@ -148,6 +152,11 @@ class PoolRun:
                     return 'stop'
                 result = self.rm.reserve_resources(self.shared[key])
                 kind = 'reserve'
+            elif kind == 'scratch_manager':
+                # another pool manager of the user's own, with pools of the same names filled to the brim, lives next
+                # to this one: nothing here may change
+                self.scratch.append(instrument_mod.scratch_environment([1], pools=['a', 'b', 'c']))
+                kind = 'noop'
             elif kind == 'reserve_recycled':
                 # the caller keeps ONE dictionary object and fills it in anew for every request
                 self.recycled.clear()
@@ -348,6 +357,9 @@ def random_sequence(rng):
     nres = 0
     for _ in range(rng.randint(6, 40)):
         x = rng.random()
+        if x < 0.03:
+            seq.append(('scratch_manager',))
+            continue
         if x < 0.22:
             amt = rng.choice(grid) * rng.choice([1, 1, 1, -1, -1, 0])
             seq.append(('add', rng.choice(names + ['zzz']) if rng.random() < 0.1 else rng.choice(names), amt))
